@@ -101,6 +101,20 @@ Proof.
   - intros [e [He Hn]]. subst name. apply smem_ok. apply S1. unfold names_of. apply in_map. assumption.
 Qed.
 
+Theorem other_methods_empty_all :
+  (forall e, In e proj_table -> ~ In (pe_method e) projecting_methods ->
+     pe_kind e = KUnimplemented /\ pe_nreturns e = 1) /\
+  unimplemented_returns = "tapkee::ProjectingFunction()" /\
+  default_ctor_init = "implementation()" /\
+  (forall name, In name dispatch_table <-> exists e, In e proj_table /\ pe_method e = name) /\
+  List.length dispatch_table = List.length proj_table /\ dispatch_shape_ok = true.
+Proof.
+  split; [exact other_methods_empty|]. split; [apply proj_unimplemented_is_empty|].
+  split; [apply proj_unimplemented_is_empty|]. split; [exact dispatch_covered|].
+  destruct proj_table_dispatch as [_ [H [_ H2]]]. split; [|assumption].
+  unfold names_of in H. rewrite map_length in H. symmetry. exact H.
+Qed.
+
 (* ---- model of the tail of embed() selected by the generated entry, and C07 for it ---- *)
 Section MethodTail.
   Context {F : Type} {Fo : FieldOps F} {Ff : IsField F}.
